@@ -216,6 +216,20 @@ Definition parse_flag (name : string) (l : list tok) : option bool :=
   | [t; b] => if is_tag name t then parse_bool b else None
   | _ => None
   end.
+(* <tag> <0/1> <0/1/2> : the validator of this build, then the hand-written variant (2 = not called) *)
+Definition parse_flag2 (name : string) (l : list tok) : option (bool * option bool) :=
+  match l with
+  | [t; b; n] =>
+      if is_tag name t then
+        match parse_bool b, n with
+        | Some b', TZ 2 => Some (b', None)
+        | Some b', _ => option_map (fun x => (b', Some x)) (parse_bool n)
+        | None, _ => None
+        end
+      else None
+  | _ => None
+  end.
+Definition print_obool (o : option bool) : tok := match o with Some b => tbool b | None => TZ 2 end.
 
 (* ---------------------------------------------------------------- entry points *)
 Definition pred_model (pattern_kind : bool) (raw s : bytes) : option bool :=
@@ -223,8 +237,8 @@ Definition pred_model (pattern_kind : bool) (raw s : bytes) : option bool :=
 
 Definition run_model (l : list tok) : list tok :=
   match parse_case l with
-  | Some (CNameC s) => [tag "N"; tbool (validate_name s)]
-  | Some (CUnitC s) => [tag "U"; tbool (validate_unit s)]
+  | Some (CNameC s) => [tag "N"; tbool (validate_name s); print_obool (validate_name_nr s)]
+  | Some (CUnitC s) => [tag "U"; tbool (validate_unit s); tbool (validate_unit_nr s)]
   | Some (CPred k raw s) => match pred_model k raw s with Some b => [tag "P"; tbool b] | None => bad_case end
   | Some (CMet r d vs keys ops) => print_met (run_met r d vs keys ops)
   | Some (CTr r d ops) => print_tr (run_tr r d ops)
@@ -234,8 +248,8 @@ Definition run_model (l : list tok) : list tok :=
 
 Definition run_spec (l obs : list tok) : list tok :=
   match parse_case l with
-  | Some (CNameC s) => match parse_flag "N" obs with Some b => spec_name s b | None => fail "obs:unparsable" end
-  | Some (CUnitC s) => match parse_flag "U" obs with Some b => spec_unit s b | None => fail "obs:unparsable" end
+  | Some (CNameC s) => match parse_flag2 "N" obs with Some (b, n) => spec_name s b n | None => fail "obs:unparsable" end
+  | Some (CUnitC s) => match parse_flag2 "U" obs with Some (b, Some n) => spec_unit s b n | _ => fail "obs:unparsable" end
   | Some (CPred k raw s) => match parse_flag "P" obs with Some b => spec_pred k raw s b | None => fail "obs:unparsable" end
   | Some (CMet r d vs keys ops) =>
       match parse_met_obs obs with Some (idx, ss) => spec_met r d vs keys ops idx ss | None => fail "obs:unparsable" end
@@ -260,7 +274,7 @@ Definition run_tag (l : list tok) : list tok :=
             end)]
   | Some (CUnitC s) =>
       [tag (if validate_unit s then (if is_nil s then "unit_empty" else if Nat.leb 63 (length s) then "unit_valid_longest" else "unit_valid")
-            else if forallb is_ascii_char s then "unit_too_long" else "unit_bad_char")]
+            else if forallb is_ascii_char s then "unit_too_long" else if has_nul s then "unit_embedded_nul" else "unit_bad_char")]
   | Some (CPred k raw s) =>
       [tag (if k then match name_sel_of raw with
                       | Some NAll => "pred_everything"
